@@ -661,7 +661,7 @@ class VC:
                 return
             # cover: the path condition (incl. preconditions) is satisfiable
             s = z3.Solver()
-            s.set("timeout", 5000)
+            s.set("timeout", 1500)
             s.add(*info["pc"])
             r = s.check()
             if r == z3.sat:
@@ -935,6 +935,17 @@ def _first_ite_cond(t):
     return None
 
 
+def _flatten_or(t, cap):
+    out, stack = [], [t]
+    while stack and len(out) < cap:
+        e = stack.pop()
+        if z3.is_or(e):
+            stack.extend(reversed(e.children()))
+        else:
+            out.append(e)
+    return out + stack
+
+
 def _flatten_and(t):
     """conjuncts of t (And flattened, Not(Or(..)) pushed inward)"""
     out, stack = [], [t]
@@ -942,8 +953,9 @@ def _flatten_and(t):
         e = stack.pop()
         if z3.is_and(e):
             stack.extend(reversed(e.children()))
-        elif z3.is_not(e) and z3.is_or(e.children()[0]):
-            stack.extend(reversed([z3.Not(c) for c in e.children()[0].children()]))
+        elif z3.is_not(e) and z3.is_or(e.children()[0]) and len(_flatten_or(e.children()[0], 9)) <= 8:
+            # small definedness disjunctions are split (each disjunct named); large ones stay one conjunct
+            stack.extend(reversed([z3.Not(c) for c in _flatten_or(e.children()[0], 9)]))
         elif z3.is_not(e) and z3.is_not(e.children()[0]):
             stack.append(e.children()[0].children()[0])
         else:
